@@ -227,16 +227,31 @@ def strip_comments(text):
     return "".join(out)
 
 
-def forbidden_tokens():
+def import_closure(roots):
+    """the .lean files a set of root files depends on inside the project (transitive `import Cicada.…`)"""
+    seen, todo = set(), list(roots)
+    while todo:
+        p = todo.pop()
+        if p in seen or not os.path.exists(p):
+            continue
+        seen.add(p)
+        for m in re.finditer(r"^import\s+(Cicada(?:\.\w+)+)\s*$", open(p, encoding="utf-8").read(), re.M):
+            todo.append(os.path.join(LEAN, m.group(1).replace(".", "/") + ".lean"))
+    return sorted(seen)
+
+
+def forbidden_tokens(module=None):
+    """forbidden tokens in every file the property's theorem module and the model driver are built from (files outside
+    that closure -- work in progress, scratch files -- are not part of what is claimed)"""
     hits = []
-    for root, _, files in os.walk(os.path.join(LEAN, "Cicada")):
-        for f in files:
-            if f.endswith(".lean"):
-                p = os.path.join(root, f)
-                txt = strip_comments(open(p, encoding="utf-8").read())
-                for ln, line in enumerate(txt.split("\n"), 1):
-                    if FORBIDDEN.search(line):
-                        hits.append("%s:%d: %s" % (os.path.relpath(p, LEAN), ln, line.strip()[:100]))
+    roots = [os.path.join(LEAN, "Driver.lean")]
+    if module:
+        roots.append(os.path.join(LEAN, module.replace(".", "/") + ".lean"))
+    for p in import_closure(roots):
+        txt = strip_comments(open(p, encoding="utf-8").read())
+        for ln, line in enumerate(txt.split("\n"), 1):
+            if FORBIDDEN.search(line) and not (p.endswith("Driver.lean") and re.search(r"\bpartial def\b", line)):
+                hits.append("%s:%d: %s" % (os.path.relpath(p, LEAN), ln, line.strip()[:100]))
     return hits
 
 
@@ -276,7 +291,7 @@ def audit(prop):
             problems.append("theorem %s not found / not checked" % n)
     if rc != 0 and not problems:
         problems.append("audit file failed: " + out[-500:])
-    fb = forbidden_tokens()
+    fb = forbidden_tokens(mod)
     for h in fb:
         problems.append("forbidden token: " + h)
     return {"obligations": len(names), "discharged": len([n for n in names if n in res and all(a in ALLOWED_AXIOMS for a in res[n])]),
